@@ -646,6 +646,7 @@ func %[1]sArrayToPQ(ids []%[1]s) pq.Int64Array {
 	nCols := rapid.IntRange(1, 6).Draw(t, "nCols")
 	var plainCols []string // columns usable in UNIQUE / select keys / queries (simple comparable scalars)
 	hasJSON := false
+	lastArrElem, lastArrFixed := "", 0
 	for k := 0; k < nCols; k++ {
 		name := sg.colName(used, "colName")
 		f := &Field{Name: name}
@@ -737,6 +738,9 @@ func %[1]sArrayToPQ(ids []%[1]s) pq.Int64Array {
 				}
 			}
 			f.Type = sg.local(sg.ensureArray(e, fixed))
+			if isBasicName(e) {
+				lastArrElem, lastArrFixed = e, fixed
+			}
 		case "enumint":
 			f.Type = sg.local(sg.ensureEnum(false))
 			plainCols = append(plainCols, name)
@@ -792,6 +796,18 @@ func %[1]sArrayToPQ(ids []%[1]s) pq.Int64Array {
 		d.Fields = append(d.Fields, f)
 		if strings.HasPrefix(kind, "json") {
 			sg.jsonCols = append(sg.jsonCols, jsonCol{Name: f.Name, Type: f.Type, owner: idx})
+		}
+	}
+	if lastArrElem != "" && rapid.IntRange(0, 2).Draw(t, "siblingArray") == 0 {
+		// a second named array type with the same SQL type as the first one (a slice next to a fixed array)
+		other := 0
+		if lastArrFixed == 0 {
+			other = rapid.IntRange(1, 4).Draw(t, "siblingArrayLen")
+		}
+		if !(lastArrElem == "uint8" && (other == 0 || o.gated("fixed_byte_array_column"))) {
+			name := sg.colName(used, "siblingArrayName")
+			d.Fields = append(d.Fields, &Field{Name: name, Type: sg.local(sg.ensureArray(lastArrElem, other))})
+			o.class("sql:two_array_types_with_one_sql_type")
 		}
 	}
 	// an unexported field that is not a guard: not a column at all, wherever it stands (also before the id)
